@@ -359,7 +359,7 @@ impl Property for C12 {
     fn strategy(&self, tier: Tier) -> BoxedStrategy<Case> {
         let max = tier.pick(40, 200);
         (prop_oneof![Just(2u8), Just(3u8)], prop_oneof![19 => proptest::collection::vec(op_strategy(), 0..max), 1 => proptest::collection::vec(op_strategy(), max..(4 * max))])
-            .prop_flat_map(|(k, ops)| (Just(k), Just(ops), prop_oneof![199 => Just(0u16), 1 => 1100u16..2600]))
+            .prop_flat_map(|(k, ops)| (Just(k), Just(ops), prop_oneof![1990 => Just(0u16), 9 => 1100u16..2600, 1 => 8500u16..12000]))
             .prop_map(|(k, ops, bulk)| Case { k, ops, bulk })
             .boxed()
     }
